@@ -386,7 +386,7 @@ def r9_nolock_user(ctx, prog):
 
 
 def run(ctx):
-    prog = extract(SCOPE)
+    prog = extract('ALL' if ctx.tier == 'thorough' else SCOPE)
     ctx.guard(r1_races, ctx, prog)
     ctx.guard(r2_handover, ctx, prog)
     ctx.guard(r3_completion, ctx, prog)
